@@ -18,94 +18,109 @@ Lemma audience_is_compared : jwt_audience_compared = true.
 Proof. reflexivity. Qed.
 Lemma app_binding_is_checked : jwt_app_bound = true.
 Proof. reflexivity. Qed.
+Lemma secrets_have_a_minimum_length : (1 <= jwt_secret_min_len)%N.
+Proof. vm_compute. discriminate. Qed.
 Lemma parser_has_clock_and_json_number_only : jwt_parser_plain = true.
 Proof. reflexivity. Qed.
 
 (* ---- 1. "validating any string either fails with an error or succeeds" ----
-   Full statement:   forall aud now v, validate_tok aud now v <> Panic.
-   It holds exactly when both type assertions on the claims (aud, Duration) are checked ones; in
-   the code as it is they are bare (jwt_aud_assert_checked = jwt_dur_assert_checked = false), the
-   statement is refuted by a token whose claims are `{}` (finding F13), and what remains true is
-   the partial statement: no panic on tokens that carry a string aud and a numeric Duration. *)
+   Full statement:   forall key aud now v, validate_tok key aud now v <> Panic.
+   It holds exactly when both type assertions on the claims (aud, Duration) are checked ones.
+   Before the repair of F13 they were bare and the statement was refuted by a token whose claims
+   are `{}`; the conditional refutation and the partial statement are kept. *)
 Theorem validate_total_iff_assertions_checked :
-  (forall aud now v, validate_tok aud now v <> Panic) <-> jwt_aud_assert_checked && jwt_dur_assert_checked = true.
+  (forall key aud now v, validate_tok key aud now v <> Panic) <-> jwt_aud_assert_checked && jwt_dur_assert_checked = true.
 Proof. exact (no_panic_iff_checked jwt_aud_assert_checked jwt_dur_assert_checked jwt_sig_canon_checked). Qed.
 
 Theorem validate_total_refuted :
   jwt_aud_assert_checked && jwt_dur_assert_checked = false ->
-  exists aud now v, validate_tok aud now v = Panic /\ sig_verifies v = false.
+  exists key aud now v, validate_tok key aud now v = Panic /\ sig_verifies key v = false.
 Proof.
-  intros E. exists []%N, 0, bare_view. split; [|reflexivity].
-  exact (bare_view_panics jwt_aud_assert_checked jwt_dur_assert_checked jwt_sig_canon_checked [] 0 E).
+  intros E. exists []%N, []%N, 0, bare_view. split; [|reflexivity].
+  exact (bare_view_panics jwt_aud_assert_checked jwt_dur_assert_checked jwt_sig_canon_checked [] [] 0 E).
 Qed.
 
-Theorem validate_total_partial : forall aud now v,
+Theorem validate_total_partial : forall key aud now v,
   (forall c, reaches_claims v = Some c -> str_claim jwt_k_aud_validate c = true /\ num_claim jwt_k_dur_validate c = true) ->
-  validate_tok aud now v <> Panic /\ forall app, validate_app aud app now v <> Panic.
+  validate_tok key aud now v <> Panic /\ forall app, validate_app key aud app now v <> Panic.
 Proof.
-  intros aud now v H. pose proof (no_panic_typed jwt_aud_assert_checked jwt_dur_assert_checked jwt_sig_canon_checked aud now v H) as P.
+  intros key aud now v H. pose proof (no_panic_typed jwt_aud_assert_checked jwt_dur_assert_checked jwt_sig_canon_checked key aud now v H) as P.
   split; [exact P|]. intros app E. apply app_panic_iff in E. exact (P E).
 Qed.
 
 (* exactly which inputs panic *)
-Theorem validate_panics_iff : forall aud now v,
-  validate_tok aud now v = Panic <->
+Theorem validate_panics_iff : forall key aud now v,
+  validate_tok key aud now v = Panic <->
   exists c, reaches_claims v = Some c /\ asserted_ok jwt_aud_assert_checked jwt_dur_assert_checked c = false.
 Proof. exact (panic_iff jwt_aud_assert_checked jwt_dur_assert_checked jwt_sig_canon_checked). Qed.
 
 (* whichever way the flags are in the current source: the statement, or its refutation *)
 Theorem validate_total_status :
   if jwt_aud_assert_checked && jwt_dur_assert_checked
-  then forall aud now v, validate_tok aud now v <> Panic
-  else exists aud now v, validate_tok aud now v = Panic /\ sig_verifies v = false.
+  then forall key aud now v, validate_tok key aud now v <> Panic
+  else exists key aud now v, validate_tok key aud now v = Panic /\ sig_verifies key v = false.
 Proof.
   destruct (jwt_aud_assert_checked && jwt_dur_assert_checked) eqn:E.
   - apply validate_total_iff_assertions_checked. exact E.
   - apply validate_total_refuted. exact E.
 Qed.
 
-(* ---- 2. "it succeeds only if ..." for every view, every clock, every expected type ---- *)
-Theorem accept_sound : forall aud now v g p,
-  validate_tok aud now v = Ok g p ->
-  accepted jwt_aud_assert_checked jwt_dur_assert_checked jwt_sig_canon_checked aud now v g p.
+(* ---- 2. "it succeeds only if ..." for every view, every clock, every expected type, every secret ----
+   key is the secret the validating signer was constructed with: the whole byte string, of any length *)
+Theorem accept_sound : forall key aud now v g p,
+  validate_tok key aud now v = Ok g p ->
+  accepted jwt_aud_assert_checked jwt_dur_assert_checked jwt_sig_canon_checked key aud now v g p.
 Proof. exact (accept_sound_g jwt_aud_assert_checked jwt_dur_assert_checked jwt_sig_canon_checked). Qed.
 
-Theorem accept_app_sound : forall aud app now v g p,
-  validate_app aud app now v = Ok g p -> validate_tok aud now v = Ok g p /\ gp_app g = app.
+Theorem accept_app_sound : forall key aud app now v g p,
+  validate_app key aud app now v = Ok g p -> validate_tok key aud now v = Ok g p /\ gp_app g = app.
 Proof. exact (accept_app_sound_g jwt_aud_assert_checked jwt_dur_assert_checked jwt_sig_canon_checked). Qed.
 
-(* truncated, re-signed with another secret, bit-flipped in header or claims, unsigned, alg none:
-   whatever leaves no MAC verifying under the validator's secret is never accepted *)
-Theorem unsigned_rejected : forall aud now v,
-  sig_verifies v = false -> forall g p, validate_tok aud now v <> Ok g p.
+(* truncated, bit-flipped in header or claims, unsigned, alg none, not three segments: whatever
+   carries no MAC made under the validator's secret is never accepted *)
+Theorem unsigned_rejected : forall key aud now v,
+  sig_verifies key v = false -> forall g p, validate_tok key aud now v <> Ok g p.
 Proof. exact (unsigned_rejected_g jwt_aud_assert_checked jwt_dur_assert_checked jwt_sig_canon_checked). Qed.
+
+(* re-signed or issued under a different secret: "different" means different as byte strings of
+   any length - k may be shorter or longer than key, a prefix or an extension of it, or differ
+   from it in a single byte at any position (also beyond the 64-byte minimum length) *)
+Theorem other_secret_rejected : forall key aud now t k,
+  tk_mac_key t = Some k -> k <> key -> forall g p, validate_tok key aud now (VTok t) <> Ok g p.
+Proof. exact (other_secret_rejected_g jwt_aud_assert_checked jwt_dur_assert_checked jwt_sig_canon_checked). Qed.
 
 (* "the string is exactly a token issued ...": header and claims segments are covered by the MAC;
    the signature segment is not, and base64 has several spellings of the same bytes (unused low
    bits of the last character, CR/LF anywhere).  Full statement: an accepted token's signature
    segment is the canonical spelling.  It holds iff ValidateToken compares the segment with its
-   re-encoding (jwt_sig_canon_checked); in the code as it is it does not (finding C14-SIGENC). *)
+   re-encoding (jwt_sig_canon_checked; finding C14-SIGENC before that comparison was added). *)
 Theorem accepted_spelling_status :
   if jwt_sig_canon_checked
-  then forall aud now t g p, validate_tok aud now (VTok t) = Ok g p -> tk_sig_canon t = true
-  else exists aud now t g p, validate_tok aud now (VTok t) = Ok g p /\ tk_sig_canon t = false.
+  then forall key aud now t g p, validate_tok key aud now (VTok t) = Ok g p -> tk_sig_canon t = true
+  else exists key aud now t g p, validate_tok key aud now (VTok t) = Ok g p /\ tk_sig_canon t = false.
 Proof.
   unfold validate_tok. destruct jwt_sig_canon_checked.
   - exact (accepted_canonical jwt_aud_assert_checked jwt_dur_assert_checked).
-  - eexists _, _, _, _, _. split; [exact (respelled_accepted jwt_aud_assert_checked jwt_dur_assert_checked) | reflexivity].
+  - eexists _, _, _, _, _, _. split; [exact (respelled_accepted jwt_aud_assert_checked jwt_dur_assert_checked) | reflexivity].
 Qed.
 
-(* ---- 3. issued tokens: all payloads, durations and clock positions ---- *)
-Theorem issued_accept_iff : forall sk aud app d t0 txt pl dg aud' app' now g p,
+(* ---- 3. issued tokens: all payloads, durations, clock positions and secrets ----
+   k: secret of the issuing signer, key: secret of the validating signer (arbitrary byte strings) *)
+Theorem issued_accept_iff : forall k key aud app d t0 txt pl dg aud' app' now g p,
   count_byte 47%N app = 1%nat ->        (* application name owner/name *)
   get k_nbf pl = None ->                (* no payload field named nbf (none of the payload types has one) *)
-  (validate_app aud' app' now (issued_view sk aud app d t0 txt pl (Some dg)) = Ok g p
-   <-> sk = true /\ aud' = aud /\ app' = app /\ now < expiry t0 d /\ g = mkGp app d (Some t0) /\ p = dg).
+  (validate_app key aud' app' now (issued_view k aud app d t0 txt pl (Some dg)) = Ok g p
+   <-> key = k /\ aud' = aud /\ app' = app /\ now < expiry t0 d /\ g = mkGp app d (Some t0) /\ p = dg).
 Proof. exact (issued_accept_iff_g jwt_aud_assert_checked jwt_dur_assert_checked jwt_sig_canon_checked issue_writes_what_validate_reads). Qed.
 
-Theorem issued_within_lifetime : forall sk aud app d t0 txt pl dg aud' app' now g p,
+Theorem issued_other_secret : forall k key aud app d t0 txt pl dg aud' now,
+  count_byte 47%N app = 1%nat -> get k_nbf pl = None -> key <> k ->
+  validate_tok key aud' now (issued_view k aud app d t0 txt pl dg) = Err ESignature.
+Proof. exact (issued_other_secret_g jwt_aud_assert_checked jwt_dur_assert_checked jwt_sig_canon_checked issue_writes_what_validate_reads). Qed.
+
+Theorem issued_within_lifetime : forall k key aud app d t0 txt pl dg aud' app' now g p,
   count_byte 47%N app = 1%nat -> get k_nbf pl = None ->
-  validate_app aud' app' now (issued_view sk aud app d t0 txt pl (Some dg)) = Ok g p -> now < t0 + d.
+  validate_app key aud' app' now (issued_view k aud app d t0 txt pl (Some dg)) = Ok g p -> now < t0 + d.
 Proof. exact (issued_within_lifetime_g jwt_aud_assert_checked jwt_dur_assert_checked jwt_sig_canon_checked issue_writes_what_validate_reads). Qed.
 
 Theorem expiry_is_lifetime_end_rounded_down : forall t0 d, t0 + d - ns_per_s < expiry t0 d <= t0 + d.
@@ -114,9 +129,12 @@ Proof. intros t0 d. split; [exact (expiry_gt t0 d) | exact (expiry_le t0 d)]. Qe
 (* ---- 4. the trace oracle follows from the model wherever code and model agree ---- *)
 Theorem oracle_follows_from_model : forall t,
   origin_consistent t -> t_aud t <> []%N ->
-  validate_tok (t_aud t) (t_now t) (t_view t) <> Panic ->
-  agrees t = true -> satisfies t = true.
+  validate_tok (t_key t) (t_aud t) (t_now t) (t_view t) <> Panic ->
+  agrees (TVal t) = true -> satisfies (TVal t) = true.
 Proof. exact (agrees_satisfies issue_writes_what_validate_reads). Qed.
+
+Theorem key_oracle_follows_from_model : forall t, agrees (TKeys t) = true -> satisfies (TKeys t) = true.
+Proof. exact agrees_satisfies_k. Qed.
 
 (* ---- non-vacuity ---- *)
 Definition ex_aud : bytes := [112;97;121;108;111;97;100;115;46;80]%N.   (* "payloads.P" *)
@@ -124,51 +142,87 @@ Definition ex_app : bytes := [116;47;97]%N.                              (* "t/a
 Definition ex_pl : claims := [([76;111;103;105;110]%N, JStr [117]%N); ([82;111;108;101;115]%N, JArr)].
 Definition ex_t0 : Z := 1767225600999999999.
 Definition ex_d : Z := 1500000001.
-Definition ex_view (sk : bool) : view := issued_view sk ex_aud ex_app ex_d ex_t0 [50;48;50;54]%N ex_pl (Some 77%N).
+(* secrets longer than the 64-byte minimum that share their first 64 bytes *)
+Definition ex_prefix : bytes := repeat 7%N 64.
+Definition ex_key : bytes := ex_prefix ++ [1;2;3]%N.        (* 67 bytes *)
+Definition ex_key_last : bytes := ex_prefix ++ [1;2;4]%N.   (* differs from ex_key in the last byte only *)
+Definition ex_key_65 : bytes := ex_prefix ++ [9;2;3]%N.     (* differs from ex_key in byte 65 only *)
+Definition ex_key_ext : bytes := ex_key ++ [5]%N.           (* an extension of ex_key *)
+Definition ex_view (k : bytes) : view := issued_view k ex_aud ex_app ex_d ex_t0 [50;48;50;54]%N ex_pl (Some 77%N).
 
 (* an issued token: accepted one nanosecond before the expiry instant (which lies 0.5 s before the
-   end of the lifetime), expired at it; refused for another key, type, application *)
+   end of the lifetime), expired at it; refused for another type, application *)
 Example issued_nonvacuous :
   expiry ex_t0 ex_d = 1767225602000000000
-  /\ validate_app ex_aud ex_app 1767225601999999999 (ex_view true) = Ok (mkGp ex_app ex_d (Some ex_t0)) 77
-  /\ validate_app ex_aud ex_app 1767225602000000000 (ex_view true) = Err EExpired
-  /\ validate_app ex_aud ex_app ex_t0 (ex_view false) = Err ESignature
-  /\ validate_app [120]%N ex_app ex_t0 (ex_view true) = Err EAudience
-  /\ validate_app ex_aud [116;47;98]%N ex_t0 (ex_view true) = Err EOtherApp
-  /\ validate_tok ex_aud ex_t0 (ex_view true) = Ok (mkGp ex_app ex_d (Some ex_t0)) 77.
+  /\ validate_app ex_key ex_aud ex_app 1767225601999999999 (ex_view ex_key) = Ok (mkGp ex_app ex_d (Some ex_t0)) 77
+  /\ validate_app ex_key ex_aud ex_app 1767225602000000000 (ex_view ex_key) = Err EExpired
+  /\ validate_app ex_key [120]%N ex_app ex_t0 (ex_view ex_key) = Err EAudience
+  /\ validate_app ex_key ex_aud [116;47;98]%N ex_t0 (ex_view ex_key) = Err EOtherApp
+  /\ validate_tok ex_key ex_aud ex_t0 (ex_view ex_key) = Ok (mkGp ex_app ex_d (Some ex_t0)) 77.
+Proof. vm_compute. repeat split. Qed.
+
+(* two secrets of more than 64 bytes sharing their first 64 bytes are different secrets: the token of
+   one is refused by the other; so is it by the common 64-byte prefix used as a secret, by an
+   extension, and by a secret that differs in byte 65 only.  All of them construct a signer. *)
+Example other_secret_nonvacuous :
+  firstn 64 ex_key = firstn 64 ex_key_last /\ firstn 64 ex_key = ex_prefix /\ ex_key <> ex_key_last
+  /\ forallb signer_constructible [ex_key; ex_key_last; ex_key_65; ex_key_ext; ex_prefix] = true
+  /\ signer_constructible (firstn 63 ex_prefix) = false
+  /\ validate_tok ex_key ex_aud ex_t0 (ex_view ex_key) = Ok (mkGp ex_app ex_d (Some ex_t0)) 77
+  /\ validate_tok ex_key_last ex_aud ex_t0 (ex_view ex_key) = Err ESignature
+  /\ validate_tok ex_key ex_aud ex_t0 (ex_view ex_key_last) = Err ESignature
+  /\ validate_tok ex_prefix ex_aud ex_t0 (ex_view ex_key) = Err ESignature
+  /\ validate_tok ex_key ex_aud ex_t0 (ex_view ex_prefix) = Err ESignature
+  /\ validate_tok ex_key_65 ex_aud ex_t0 (ex_view ex_key) = Err ESignature
+  /\ validate_tok ex_key_ext ex_aud ex_t0 (ex_view ex_key) = Err ESignature
+  /\ validate_tok ex_key ex_aud ex_t0 (ex_view ex_key_ext) = Err ESignature.
+Proof. vm_compute. repeat split. discriminate. Qed.
+
+(* the oracle on such a pair: acceptance under the other secret is a violation, and so is an equal
+   keyed hash; the model disagrees with both *)
+Example key_oracle_nonvacuous :
+  let bad := mkTrace ex_key_last ex_t0 ex_aud ex_app (ex_view ex_key) (OIssued ex_key true ex_app ex_aud ex_t0 ex_d 77)
+                     (OOk (mkGp ex_app ex_d (Some ex_t0)) 77) (OOk (mkGp ex_app ex_d (Some ex_t0)) 77) None in
+  satisfies (TVal bad) = false /\ agrees (TVal bad) = false
+  /\ satisfies (TKeys (mkKeys ex_key ex_key_last true true (Some true))) = false
+  /\ agrees (TKeys (mkKeys ex_key ex_key_last true true (Some true))) = false
+  /\ agrees (TKeys (mkKeys ex_key ex_key_last true true (Some false))) = true
+  /\ satisfies (TKeys (mkKeys ex_key ex_key_last true true (Some false))) = true
+  /\ agrees (TKeys (mkKeys (firstn 63 ex_prefix) ex_prefix false true None)) = true.
 Proof. vm_compute. repeat split. Qed.
 
 (* forged views: typed claims never panic whatever else is wrong; the bare one is the F13 witness *)
 Example partial_nonvacuous :
   let c := [([97;117;100]%N, JStr ex_aud); ([68;117;114;97;116;105;111;110]%N, JNum None 1)] in
-  let v := VTok (mkTok (HObj (Some [110;111;110;101]%N)) (CObj c) true false true None None) in
+  let v := VTok (mkTok (HObj (Some [110;111;110;101]%N)) (CObj c) true None true None None) in
   reaches_claims v = Some c
   /\ str_claim jwt_k_aud_validate c = true /\ num_claim jwt_k_dur_validate c = true
-  /\ validate_tok ex_aud 0 v = Err EPayload
+  /\ validate_tok ex_key ex_aud 0 v = Err EPayload
   /\ reaches_claims bare_view = Some []
   /\ asserted_ok false false [] = false.
 Proof. vm_compute. repeat split. Qed.
 
-Example accept_sound_nonvacuous : exists g p, validate_tok ex_aud ex_t0 (ex_view true) = Ok g p.
+Example accept_sound_nonvacuous : exists g p, validate_tok ex_key ex_aud ex_t0 (ex_view ex_key) = Ok g p.
 Proof. eexists _, _. vm_compute. reflexivity. Qed.
 
 Example unsigned_nonvacuous :
-  sig_verifies (ex_view false) = false /\ sig_verifies VNoSplit = false
-  /\ validate_tok ex_aud ex_t0 VNoSplit = Err EInvalidToken.
+  sig_verifies ex_key (ex_view ex_key_last) = false /\ sig_verifies ex_key VNoSplit = false
+  /\ sig_verifies ex_key (ex_view ex_key) = true
+  /\ validate_tok ex_key ex_aud ex_t0 VNoSplit = Err EInvalidToken.
 Proof. vm_compute. repeat split. Qed.
 
 (* a re-spelled signature segment: accepted without the comparison, refused with it *)
 Example spelling_nonvacuous :
-  validate_tok_g false false false [80]%N 0 respelled_view = Ok (mkGp [97;47;98]%N 1 None) 7
-  /\ validate_tok_g false false true [80]%N 0 respelled_view = Err EInvalidToken
-  /\ validate_tok_g true true true [] 0 bare_view = Err EPayload.
+  validate_tok_g false false false [1;2;3]%N [80]%N 0 respelled_view = Ok (mkGp [97;47;98]%N 1 None) 7
+  /\ validate_tok_g false false true [1;2;3]%N [80]%N 0 respelled_view = Err EInvalidToken
+  /\ validate_tok_g true true true [] [] 0 bare_view = Err EPayload.
 Proof. vm_compute. repeat split. Qed.
 
 (* a truthful trace on which the model's outputs are the observed ones *)
 Example oracle_nonvacuous :
-  let t := mkTrace ex_t0 ex_aud ex_app (ex_view true) (OIssued true true ex_app ex_aud ex_t0 ex_d 77)
+  let t := mkTrace ex_key ex_t0 ex_aud ex_app (ex_view ex_key) (OIssued ex_key true ex_app ex_aud ex_t0 ex_d 77)
                    (OOk (mkGp ex_app ex_d (Some ex_t0)) 77) (OOk (mkGp ex_app ex_d (Some ex_t0)) 77) (Some 0%N) in
-  agrees t = true /\ satisfies t = true /\ validate_tok (t_aud t) (t_now t) (t_view t) <> Panic.
+  agrees (TVal t) = true /\ satisfies (TVal t) = true /\ validate_tok (t_key t) (t_aud t) (t_now t) (t_view t) <> Panic.
 Proof. vm_compute. repeat split. discriminate. Qed.
 
 Print Assumptions validate_total_iff_assertions_checked.
@@ -179,8 +233,11 @@ Print Assumptions validate_total_status.
 Print Assumptions accept_sound.
 Print Assumptions accept_app_sound.
 Print Assumptions unsigned_rejected.
+Print Assumptions other_secret_rejected.
 Print Assumptions accepted_spelling_status.
 Print Assumptions issued_accept_iff.
+Print Assumptions issued_other_secret.
 Print Assumptions issued_within_lifetime.
 Print Assumptions expiry_is_lifetime_end_rounded_down.
 Print Assumptions oracle_follows_from_model.
+Print Assumptions key_oracle_follows_from_model.
